@@ -39,11 +39,16 @@ CFG = {"cmds": ["restore", "restore", "empty", "rm"], "oracles": ("crash15", "ef
 LEVEL_NOTE = ("theorems: while one entry is purged the info file is untouched as long as the payload root exists (every "
               "oracle); re-running the purge completes it; a same-volume restore keeps the entry complete in the trash or "
               "at its destination in every intermediate state. Cross-volume restores (copy + delete) are covered by the "
-              "recorded states and the oracle only")
+              "recorded states and the oracle only; C15Loop (any number of entries): every crash state of the trash-empty / "
+              "trash-rm loop is a PREFIX state (the first k selected entries purged whole, one entry inside its own purge, the "
+              "rest untouched), hence no payload without its info file in any of them (trash-rm: every oracle; trash-empty: "
+              "fault-free, with the refutation under faults - a payload whose removal fails loses its info file all the same), "
+              "and re-running the loop from any crash state ends where the uninterrupted run ends")
 RULE = ("seeded trash worlds (files, deep directories, symlinks; single and multiple entries; same- and cross-volume "
         "destinations); every state before each mutating call is compared with the model's state sequence and checked "
         "against Effects.crashCheck; for a third of the worlds a keyboard interrupt behind each mutating call in turn, the state "
-        "left by the program's own handlers judged by the same predicate; thorough: real kills + re-run of trash-empty / trash-rm to completion")
+        "left by the program's own handlers judged by the same predicate; two worlds with 101-130 entries in one directory (whatever "
+        "is done in batches), every intermediate state judged; thorough: real kills + re-run of trash-empty / trash-rm to completion")
 
 
 def rerun_task(task):
@@ -71,11 +76,52 @@ def rerun_task(task):
     return {"skip": False, "n": n, "bad": bad, "cmd": cmd}
 
 
+def big_world(seed, i):
+    """one trash directory with more than a hundred entries (whatever a command does in batches or every n-th time),
+    purged by trash-empty or trash-rm: the crash invariant in every one of the ~2n intermediate states"""
+    from ..model import W
+    from ..sandbox import MODEL_ROOT as R
+    rng = task_rng("C15big", seed, i)
+    w = W()
+    home = w.dir(R + b"/home/u")
+    t = home + b"/.local/share/Trash"
+    w.dir(t, 0o700)
+    w.dir(t + b"/files", 0o700)
+    w.dir(t + b"/info", 0o700)
+    n = rng.choice([101, 104, 130])
+    entries = []
+    for j in range(n):
+        nm = b"entry-%03d" % j
+        loc = home + b"/docs/" + nm
+        w.file(t + b"/info/" + nm + b".trashinfo", b"[Trash Info]\nPath=" + loc + b"\nDeletionDate=2020-01-%02dT00:00:00\n" % (j % 28 + 1), 0o600)
+        if j % 50 == 7:
+            w.file(t + b"/files/" + nm + b"/deep/leaf", b"directory payload")
+        else:
+            w.file(t + b"/files/" + nm, b"p%d" % j)
+        entries.append({"tdir": t, "name": nm, "loc": loc, "rec": loc, "date": "2020-01-%02dT00:00:00" % (j % 28 + 1), "base": None})
+    cmd = ["empty", "rm"][i % 2]
+    opts, args, env = {}, [], {"HOME": home}
+    if cmd == "empty":
+        env["TRASH_DATE"] = b"2024-03-02T12:00:00"
+        opts = {"now": [2024, 3, 2, 12, 0, 0]}
+        if rng.random() < 0.5:
+            opts["days"] = 30
+    else:
+        args = [b"entry-*"]
+    world = w.world(env=env, uid=1000, cwd=home, cmd=cmd, opts=opts, args=args, stdin=None,
+                    meta={"entries": entries, "tdirs": [(t, None)], "profile": "big", "payload_kinds": ["file"], "sentinels": []})
+    world["argv"] = cmd_argv(world)
+    return world
+
+
 def run(tier, seed):
     ck = Check("C15", tier, seed)
     info = audit("C15")
     results = run_tasks(eval_task, tasks_for("C15", seed, CFG, 150 if tier == "quick" else 2500))
     absorb(ck, results, CFG)
+    big_cfg = dict(CFG, tweak=None, interrupt_sweep=0)
+    absorb(ck, run_tasks(eval_task, [{"pid": "C15", "seed": seed, "i": 1, "cfg": big_cfg, "world": big_world(seed, i)}
+                                     for i in range(2 if tier == "quick" else 12)]), big_cfg)
     reruns = run_tasks(rerun_task, [{"seed": seed, "i": i} for i in range(10 if tier == "quick" else 150)])
     nk = 0
     for r in reruns:
